@@ -1,7 +1,8 @@
 /-
 C02 — realised recombination and segregation match the crossover probabilities.
 Property theorems only (helper lemmas: Lemmas/RecombLoop, RecombLaw, RecombMap, RecombLLN, RecombSpec,
-RecombWiring, RecombKosambi, RecombTV; section F imports C01's Model/Meiosis, Model/Mating and its Lemmas/Mating*).
+RecombWiring, RecombKosambi, RecombTV, and (round 3) RecombSpecObs, RecombDense, RecombSelf, RecombGMap; section F
+imports C01's Model/Meiosis, Model/Mating and its Lemmas/Mating*; section C' imports C11's Lemmas/GMapSeq).
 
 Model: PybropsModel/Model/Recomb.lean.
   * `meiosisRow` / `matMeiosis` transcribe mat_meiosis (= dense_meiosis): one uniform draw per gamete
@@ -21,6 +22,10 @@ import PybropsModel.Lemmas.RecombSpec
 import PybropsModel.Lemmas.RecombWiring
 import PybropsModel.Lemmas.RecombKosambi
 import PybropsModel.Lemmas.RecombTV
+import PybropsModel.Lemmas.RecombSpecObs
+import PybropsModel.Lemmas.RecombDense
+import PybropsModel.Lemmas.RecombSelf
+import PybropsModel.Lemmas.RecombGMap
 set_option autoImplicit false
 set_option linter.unusedSectionVars false
 
@@ -145,6 +150,66 @@ theorem mat_dh_gametes (geno : List (List (List α))) (sel : List Nat) (xo : Lis
 
 end code
 
+/-! ## A''. the second copy of the code (core/util/mate.py) and its use by the EMBV matrix -/
+section twin
+variable {α : Type} {β : Type} [LT β] [DecidableLT β]
+
+/-- **One function, two files.**  `dense_meiosis` / `dense_dh` / `dense_cross` (transcribed on their own, with
+    the integer `phase = 1 - phase` of the source) compute exactly what `mat_meiosis` / `mat_dh` / `mat_mate`
+    compute, for every input; every theorem of this file about the latter therefore holds of the former. -/
+theorem dense_twin_same_function (geno mgeno : List (List (List α))) (sel msel : List Nat) (xo : List β)
+    (rnd rndM : List (List β)) :
+    denseMeiosis geno sel xo rnd = matMeiosis geno sel xo rnd ∧
+    denseDH geno sel xo rnd = matDH geno sel xo rnd ∧
+    denseCross geno mgeno sel msel xo rnd rndM = matMate geno mgeno sel msel xo rnd rndM :=
+  ⟨denseMeiosis_eq_matMeiosis _ _ _ _, denseDH_eq_matDH _ _ _ _, denseCross_eq_matMate _ _ _ _ _ _ _⟩
+
+/-- the literal loop with the integer phase is the loop with the Boolean phase -/
+theorem dense_loop_eq_segLoop (h0 h1 : List α) (r xo : List β) :
+    denseRow h0 h1 r xo = meiosisRow h0 h1 r xo :=
+  denseRow_eq_meiosisRow h0 h1 r xo
+
+/-- **The doubled haploids of `from_gmod`.**  Whenever the loop over taxa and replicates succeeds on the
+    recorded draw matrices, it consumed exactly one matrix per (taxon, replicate) — as many as `embvCalls`
+    lists — and the k-th doubled-haploid family is `[g, g]` with `g` the single meiosis (`matMeiosis`, hence
+    `mat_meiosis_mosaic`) of `numpy.repeat(i, nprogeny[i])` on the k-th draw matrix: every replicate of every
+    taxon is an independent instance of the one-meiosis law, for all taxon counts and count vectors. -/
+theorem embv_doubled_haploids (geno : List (List (List α))) (xo : List β) (nprogeny nrep : List Nat)
+    (draws : List (List (List β))) (ms : List (List (List (List α))))
+    (h : embvDH geno xo nprogeny nrep draws = .ok ms) :
+    nprogeny.length = nrep.length ∧ draws.length = (embvCalls nprogeny nrep).length ∧
+    List.Forall₂ (IsDH geno xo) (List.zip (embvSels 0 nprogeny nrep) draws) ms := by
+  unfold embvDH at h
+  simp only [bind, Except.bind] at h
+  cases hf : embvFrom geno xo 0 nprogeny nrep draws with
+  | error e => simp [hf] at h
+  | ok res =>
+    obtain ⟨ms1, rest⟩ := res
+    simp only [hf] at h
+    split at h
+    · rename_i he
+      simp only [pure, Except.pure, Except.ok.injEq] at h
+      subst h
+      obtain ⟨f1, f2, f3, f4⟩ := embvFrom_spec geno xo nprogeny nrep 0 draws ms1 rest hf
+      have hr : rest = [] := by simpa using he
+      rw [hr] at f3
+      have : draws.length ≤ (embvSels 0 nprogeny nrep).length := by
+        have := congrArg List.length f3
+        simp only [List.length_nil, List.length_drop] at this
+        omega
+      refine ⟨f1, ?_, f4⟩
+      rw [← embvSels_length 0 nprogeny nrep f1]
+      omega
+    · cases h
+
+example : embvDH [[[10, 11], [30, 31]], [[20, 21], [40, 41]]] [(1:Rat)/2, 1/4] [2, 1] [1, 2]
+    [[[1/4, 1/2], [3/4, 1/8]], [[3/4, 3/4]], [[1/4, 0]]] =
+    .ok [[[[20, 21], [10, 21]], [[20, 21], [10, 21]]], [[[30, 31]], [[30, 31]]], [[[40, 31]], [[40, 31]]]] := by
+  decide +kernel
+example : embvSels 0 [2, 1] [1, 2] = [[0, 0], [1], [1]] := by decide
+
+end twin
+
 /-! ## A'. the Spec oracle that is evaluated on the implementation's gametes -/
 section spec
 variable {β : Type} [LinearOrder β] [Zero β]
@@ -163,7 +228,7 @@ theorem spec_accepts_model (r xo : List β) (er : r.length = xo.length) :
 
     FULL STATEMENT (false by design, see `spec_iff_model_counterexample`: at an exact tie `r = x` with
     `x > 0` — an event of probability zero — the Spec accepts both outcomes and leaves the strict `<` to the
-    correspondence check):
+    correspondence check; the exact characterisation with NO hypothesis on ties is `spec_iff_model` below):
       ∀ lab r xo, r.length = xo.length → (specRow lab r xo = true ↔ lab = phases (xoMask r xo)) -/
 theorem spec_iff_model_partial (lab : List Bool) (r xo : List β) (er : r.length = xo.length)
     (hne : ∀ j (h1 : j < r.length) (h2 : j < xo.length), r[j] ≠ xo[j]) :
@@ -189,6 +254,96 @@ example : specRow [false, false, true, true] [(1:Rat)/2, 0, 1/4, 1/4] [(1:Rat)/2
   decide +kernel
 -- a crossover at a tie with stored probability 0 is rejected
 example : specRow [true] [(0:Rat)] [(0:Rat)] = false := by decide +kernel
+
+/-- **Exact characterisation of `specRow`, ties included** (the corrected full statement behind
+    `spec_iff_model_partial`): an observed copy sequence passes iff it is the copy sequence of a crossover mask
+    that agrees with the comparisons `r_j < xo_j` everywhere except, possibly, at exact ties `r_j = xo_j` with
+    `xo_j ≠ 0`.  The discrepancy between "passes the Spec" and "is the model's output" is exactly the freedom at
+    those ties (probability `≤ m·2^-53` under numpy's draws, by `draws_pushforward_tv`). -/
+theorem spec_iff_model (lab : List Bool) (r xo : List β) :
+    specRow lab r xo = true ↔ ∃ m, maskOK r xo m ∧ lab = phases m := by
+  have h0 : specRow lab r xo = specObsFrom (single false) (lab.map some) r xo :=
+    (specObsFrom_all_observed lab r xo false).symm
+  rw [h0, specObsFrom_iff]
+  constructor
+  · rintro ⟨ph, m, hm, h1, h2⟩
+    have : ph = false := by cases ph <;> simp_all [memC, single]
+    subst this
+    exact ⟨m, h1, (obsOK_map_some _ _).mp h2⟩
+  · rintro ⟨m, h1, rfl⟩
+    exact ⟨false, m, rfl, h1, (obsOK_map_some _ _).mpr rfl⟩
+
+/-- **Partly observable provenance: the oracle accepts the model**, whatever the heterozygosity pattern of the
+    parent (`het[j]` = the two copies differ at marker j), exact ties included — a run of code that behaves
+    like the model on a partly inbred parent can never be flagged. -/
+theorem spec_obs_accepts_model (het : List Bool) (r xo : List β) (eh : het.length = xo.length)
+    (er : r.length = xo.length) :
+    specRowObs (seen het (phases (xoMask r xo))) r xo = true :=
+  specObsFrom_accepts xo r het (true, false) false rfl eh er
+
+/-- **… and exactly what it accepts** (no hypothesis on ties): a partly observed copy sequence passes iff
+    some crossover mask admissible for the draws (equal to the comparisons off positive ties) produces a copy
+    sequence that shows every observed copy. -/
+theorem spec_obs_iff (obs : List (Option Bool)) (r xo : List β) :
+    specRowObs obs r xo = true ↔ ∃ m, maskOK r xo m ∧ obsOK obs (phases m) := by
+  unfold specRowObs
+  rw [specObsFrom_iff]
+  constructor
+  · rintro ⟨ph, m, hm, h1, h2⟩
+    have : ph = false := by cases ph <;> simp_all [memC]
+    subst this
+    exact ⟨m, h1, h2⟩
+  · rintro ⟨m, h1, h2⟩
+    exact ⟨false, m, rfl, h1, h2⟩
+
+/-- away from positive ties the admissible mask is the model's, so the oracle demands exactly: every
+    observed copy is the copy the model computes from the draws.
+
+    FULL STATEMENT (false by design at exact ties `r = x` with `x ≠ 0`, as for `specRow`:
+    `spec_iff_model_counterexample` is the all-observed instance; the exact version without hypothesis is
+    `spec_obs_iff`):
+      ∀ obs r xo, r.length = xo.length → (specRowObs obs r xo = true ↔ obsOK obs (phases (xoMask r xo))) -/
+theorem spec_obs_iff_model_partial (obs : List (Option Bool)) (r xo : List β) (er : r.length = xo.length)
+    (hne : ∀ p ∈ r.zip xo, p.1 = p.2 → p.2 = 0) :
+    specRowObs obs r xo = true ↔ obsOK obs (phases (xoMask r xo)) := by
+  rw [spec_obs_iff]
+  constructor
+  · rintro ⟨m, h1, h2⟩
+    rwa [maskOK_unique r xo m hne h1] at h2
+  · intro h
+    exact ⟨_, maskOK_xoMask r xo er, h⟩
+
+/-- **The whole oracle is sound on the model's gametes.**  For any parent — fully heterozygous, partly or fully
+    inbred — reading the provenance off the gamete the model computes (`observeRow`, the function the driver
+    op `c02.spec_meiosis` applies to the implementation's gametes) succeeds, and what is read passes
+    `specRowObs` against the same draws: code that computes what the model computes is never flagged. -/
+theorem spec_meiosis_sound {γ : Type} [BEq γ] [LawfulBEq γ] (h0 h1 : List γ) (r xo : List β)
+    (e0 : h0.length = xo.length) (e1 : h1.length = xo.length) (er : r.length = xo.length) :
+    ∃ obs, observeRow h0 h1 (meiosisRow h0 h1 r xo) = some obs ∧ specRowObs obs r xo = true := by
+  have hp : (phases (xoMask r xo)).length = xo.length := by
+    unfold phases; rw [phasesFrom_length, xoMask_length r xo er]
+  refine ⟨seen (hetMask h0 h1) (phases (xoMask r xo)), ?_, ?_⟩
+  · rw [meiosisRow_eq_mosaic h0 h1 r xo e0 e1 er]
+    exact observeRow_mosaic _ h0 h1 (by omega) (by omega)
+  · exact spec_obs_accepts_model (hetMask h0 h1) r xo (by rw [hetMask_length h0 h1 (by omega), e0]) er
+
+example : observeRow [10, 11, 12, 13] [20, 11, 12, 23] (meiosisRow [10, 11, 12, 13] [20, 11, 12, 23]
+    [(3:Rat)/4, 0, 3/4, 3/4] [(1:Rat)/2, 1/4, 1/4, 1/4]) = some [some false, none, none, some true] := by
+  decide +kernel
+
+/-- with every marker observed (a fully heterozygous parent) it is the cell-by-cell oracle -/
+theorem spec_obs_all_observed (lab : List Bool) (r xo : List β) :
+    specRowObs (lab.map some) r xo = specRow lab r xo :=
+  specObsFrom_all_observed lab r xo false
+
+-- a parent homozygous at markers 1 and 2: the crossover drawn AT marker 1 is invisible there, but the copy seen
+-- at marker 3 must reflect it
+example : specRowObs [some false, none, none, some true] [(3:Rat)/4, 0, 3/4, 3/4] [(1:Rat)/2, 1/4, 1/4, 1/4] = true := by
+  decide +kernel
+example : specRowObs [some false, none, none, some false] [(3:Rat)/4, 0, 3/4, 3/4] [(1:Rat)/2, 1/4, 1/4, 1/4] = false := by
+  decide +kernel
+example : seen [true, false, false, true] [false, true, true, true] = [some false, none, none, some true] := by decide
+example : ∀ p ∈ [(3:Rat)/4, 0].zip [(1:Rat)/2, 0], p.1 = p.2 → p.2 = 0 := by decide +kernel
 
 end spec
 
@@ -385,6 +540,37 @@ theorem xoprob_within_chromosome (h : α → α) (chr : List Int) (pos : List α
     (hc : k + 1 < chr.length) (hp : k + 1 < pos.length) (hsame : chr[k + 1] = chr[k]) :
     (rprob1g h chr pos)[k + 1]? = some (h (pos[k + 1] - pos[k])) := by
   rw [List.getElem?_eq_getElem (by rw [rprob1g_length]; omega), rprob1g_within h chr pos k hc hp hsame]
+
+/-- **The `numpy.unique` loop of the source.**  `gdist1g` as written (`uniq, start, counts = numpy.unique(…)`,
+    `out = numpy.empty(…)`, `out[st] = inf; out[st+1:sp] = genpos[st+1:sp] - genpos[st:sp-1]` per distinct
+    label — C11's literal transcription `GMap.gdist1gLit`) writes every cell and writes exactly the distances
+    of the model used in this file, whenever equal chromosome labels are contiguous: sorted or not, chromosomes
+    with a single marker included.  (`interp_xoprob` refuses a matrix that has not been grouped.)
+
+    FULL STATEMENT (false of the as-is code, see `gdist1g_loop_ungrouped_counterexample`):
+      ∀ chr pos, chr.length ≤ pos.length →
+        GMap.gdist1gLit chr (pos.map some) = ((gdist1g chr pos).map toGDist).map some -/
+theorem gdist1g_loop_eq_model_partial {γ : Type} [Sub γ] [LT γ] [DecidableLT γ] [OfNat γ 0]
+    (chr : List Int) (pos : List γ) (hlen : chr.length ≤ pos.length) (hc : GMap.ContigLabels chr) :
+    GMap.gdist1gLit chr (pos.map some) = ((gdist1g chr pos).map toGDist).map some :=
+  gdist1gLit_eq_recomb chr pos hlen hc
+
+/-- labels `[1, 2, 1]` (not grouped): the loop leaves the last cell unwritten (uninitialised memory in numpy)
+    and never marks it as a chromosome start -/
+theorem gdist1g_loop_ungrouped_counterexample :
+    GMap.gdist1gLit (α := Int) [1, 2, 1] ([10, 25, 50].map some) ≠
+      ((gdist1g [1, 2, 1] [(10 : Int), 25, 50]).map toGDist).map some := by
+  decide
+
+example : GMap.ContigLabels [7, 7, 3, 5] := by
+  intro i j k hij hjk v hi hk
+  have hk4 : k < 4 := by
+    by_contra hc
+    have : ([7, 7, 3, 5] : List Int)[k]? = none := List.getElem?_eq_none (by simp; omega)
+    rw [this] at hk; cases hk
+  interval_cases k <;> interval_cases j <;> interval_cases i <;> simp_all <;> omega
+example : GMap.gdist1gLit (α := Int) [7, 7, 3, 5] ([10, 25, 50, 0].map some) =
+    [some .inf, some (.fin 15), some .inf, some .inf] := by decide
 
 /-- **Markers on different chromosomes recombine with probability 1/2**, for every map function. -/
 theorem unlinked_across_chromosomes (h : α → α) (chr : List Int) (pos : List α) (hlen : chr.length = pos.length)
@@ -781,6 +967,61 @@ theorem two_way_mate_rows (pop : Pop α) (xc : List (List Nat)) (nmating nprogen
   rw [List.getElem?_eq_getElem hk] at hp
   rw [hind]; exact Option.some.inj hp
 
+/-- **Selfing generations are iterated single meioses — every protocol, every `nself`.**  Whenever `generate`
+    succeeds there are the hybrid population `hyb` (built by the protocol's crosses) and the draw matrices `d1`
+    still unread at that point such that the selfing loop consumed exactly the next `2·nself` matrices and
+    produced `selfGens xo nself hyb d1`: generation by generation, both chromosome copies of plant k are the
+    gametes `meiosisRow` of plant k of the previous generation (`selfing_generation_row`), copy 0 under row k of
+    the first matrix of that generation, copy 1 under row k of the second.  The four non-DH protocols return
+    that population; the three DH protocols apply one `mat_dh` to it (`dh_progeny_copies`).  So every meiosis
+    of the pedigree is an instance of `mat_meiosis_mosaic` on draw rows used by no other meiosis, and the laws
+    of sections B–E apply to each of them (`progeny_copies_independent`, `two_generation_recombination_law`). -/
+theorem selfing_generations_are_single_meioses (P : Proto) (pop : Pop α) (xc : List (List Nat))
+    (nm np : List Nat) (nself : Nat) (xo : List ρ) (d rest : List (DrawMat ρ)) (prog : Pop α)
+    (h : generate P pop xc nm np nself xo d = .ok (prog, rest)) :
+    ∃ (hyb : Pop α) (d1 : List (DrawMat ρ)), 2 * nself ≤ d1.length ∧
+      (selfGens xo nself hyb d1).length = hyb.length ∧
+      (if P.isDH then
+         dhE (selfGens xo nself hyb d1) (Np.repeatEach (Np.repeatEach nm np) (Np.arange 0 hyb.length)) xo
+           (d1.drop (2 * nself)) = .ok (prog, rest)
+       else prog = selfGens xo nself hyb d1 ∧ rest = d1.drop (2 * nself)) := by
+  obtain ⟨hyb, d1, selfed, d2, hs, ht⟩ := generate_selfing_stage P pop xc nm np nself xo d prog rest h
+  obtain ⟨i1, i2, i3, i4⟩ := selfLoop_eq_selfGens hyb.length nself rfl hs
+  refine ⟨hyb, d1, i1, by rw [← i3]; exact i4, ?_⟩
+  cases hP : P.isDH
+  · simp only [hP, Bool.false_eq_true, if_false, Prod.mk.injEq] at ht ⊢
+    exact ⟨ht.1.trans i3, ht.2.trans i2⟩
+  · simp only [hP, if_true] at ht ⊢
+    rw [← i3, ← i2, ← i4]
+    exact ht
+
+/-- **Two-way cross with `nself` selfing generations, all meioses named.**  Hybrid k = (gamete of the k-th
+    repeated female under row k of `rf`, gamete of the k-th repeated male under row k of `rm`); the progeny
+    returned are `selfGens xo nself hyb rest`, i.e. the next `2·nself` draw matrices read two per generation. -/
+theorem two_way_selfed_progeny_copies (pop : Pop α) (xc : List (List Nat)) (nm np : List Nat) (nself : Nat)
+    (xo : List ρ) (rf rm : DrawMat ρ) (rest rest' : List (DrawMat ρ)) (prog : Pop α)
+    (h : generate .twoWay pop xc nm np nself xo (rf :: rm :: rest) = .ok (prog, rest')) :
+    ∃ hyb : Pop α,
+      (∀ k (hk : k < hyb.length), ∃ f m,
+        pop[(Np.repeatEach (List.zipWith (· * ·) nm np) (col xc 0)).getD k 0]? = some f ∧
+        pop[(Np.repeatEach (List.zipWith (· * ·) nm np) (col xc 1)).getD k 0]? = some m ∧
+        hyb[k]? = some (meiosisRow f.1 f.2 (rf.getD k []) xo, meiosisRow m.1 m.2 (rm.getD k []) xo)) ∧
+      2 * nself ≤ rest.length ∧ prog = selfGens xo nself hyb rest ∧ rest' = rest.drop (2 * nself) := by
+  simp only [generate] at h
+  split at h
+  · cases h
+  · rename_i hyb d1 hm
+    obtain ⟨e1, _, _, h4⟩ := mateE_row hm
+    subst e1
+    obtain ⟨i1, i2, i3, _⟩ := selfLoop_eq_selfGens hyb.length nself rfl h
+    exact ⟨hyb, h4, i1, i3, i2⟩
+
+/-- one generation of `selfGens`: progeny k from plant k, one draw row per copy -/
+theorem selfing_generation_row (xo : List ρ) (pop : Pop α) (rf rm : DrawMat ρ) (k : Nat) (hk : k < pop.length) :
+    (selfGen xo pop rf rm)[k]? =
+      some (meiosisRow pop[k].1 pop[k].2 (rf.getD k []) xo, meiosisRow pop[k].1 pop[k].2 (rm.getD k []) xo) := by
+  simp [selfGen, List.getElem?_map, List.getElem?_zipIdx, hk]
+
 end wiring
 
 section wiringlaw
@@ -827,6 +1068,122 @@ example : E ([(1:ℚ)/2, 1/10, 1/5] ++ [(1:ℚ)/2, 1/10, 1/5]) (fun b =>
   simp only [List.length_cons, List.length_nil] at this
   rw [this]; norm_num [pairProb, oddProb, prodD, dfac]
 
+/-- **Two generations, cell by cell** (the deterministic fact behind the law below): grandparent with copies
+    `g0`, `g1`; the parent's two copies are its gametes under the masks `b0`, `b1`; the parent's gamete under
+    mask `a` carries at marker k the allele of grandparental copy `lab2 a b0 b1 k`.  Instances in the code:
+    a progeny copy of `SelfCross` with `nself = 1`, a doubled haploid of a two-way hybrid selfed once, a
+    progeny copy of a two-way cross with `nself = 2` (`selfing_generations_are_single_meioses`). -/
+theorem two_generation_cell {γ : Type} (g0 g1 : List γ) (a b0 b1 : List Bool) (n : Nat)
+    (e0 : g0.length = n) (e1 : g1.length = n) (ea : a.length = n) (eb0 : b0.length = n) (eb1 : b1.length = n)
+    (k : Nat) (hk : k < n) :
+    (mosaic (phases a) (mosaic (phases b0) g0 g1) (mosaic (phases b1) g0 g1))[k]? =
+      some (if lab2 a b0 b1 k then g1[k] else g0[k]) :=
+  two_generation_cell_aux g0 g1 a b0 b1 n e0 e1 ea eb0 eb1 k hk
+
+/-- **Recombination law after a selfing generation.**  Three independent meioses on the same vector `xs` (the
+    last one and the two that made the parent's copies; masks laid side by side): markers i < j of the resulting
+    gamete carry different grandparental copies with probability
+    `(1 - r) r + r (u (1 - v) + (1 - u) v)`, `r = pairProb i j`, `u = phaseProb i`, `v = phaseProb j` — both
+    markers read the same parental copy and that copy is recombinant, or they read different parental copies,
+    which are independent gametes.  For every vector, every pair of markers. -/
+theorem two_generation_recombination_law (xs : List α) (i j : Nat) (hij : i < j) (hj : j < xs.length) :
+    E (xs ++ (xs ++ xs)) (fun b =>
+        ind (lab2 (b.take xs.length) ((b.drop xs.length).take xs.length) ((b.drop xs.length).drop xs.length) i !=
+             lab2 (b.take xs.length) ((b.drop xs.length).take xs.length) ((b.drop xs.length).drop xs.length) j)) =
+      pairProb2 xs i j := by
+  have hi : i < xs.length := by omega
+  -- events of the last meiosis
+  let A : Bool → Bool → List Bool → α := fun p q a =>
+    ind ((phases a).getD i false == p && (phases a).getD j false == q)
+  -- events of the two earlier meioses (t = b0 ++ b1)
+  let R0 : List Bool → α := fun t => ind ((phases (t.take xs.length)).getD i false != (phases (t.take xs.length)).getD j false)
+  let R1 : List Bool → α := fun t => ind ((phases (t.drop xs.length)).getD i false != (phases (t.drop xs.length)).getD j false)
+  let U : Nat → List Bool → α := fun k u => ind ((phases u).getD k false)
+  let X01 : List Bool → α := fun t =>
+    U i (t.take xs.length) * (1 - U j (t.drop xs.length)) + (1 - U i (t.take xs.length)) * U j (t.drop xs.length)
+  let X10 : List Bool → α := fun t =>
+    (1 - U j (t.take xs.length)) * U i (t.drop xs.length) + U j (t.take xs.length) * (1 - U i (t.drop xs.length))
+  have hsplit : (fun b : List Bool =>
+        (ind (lab2 (b.take xs.length) ((b.drop xs.length).take xs.length) ((b.drop xs.length).drop xs.length) i !=
+             lab2 (b.take xs.length) ((b.drop xs.length).take xs.length) ((b.drop xs.length).drop xs.length) j) : α)) =
+      fun b => A false false (b.take xs.length) * R0 (b.drop xs.length) +
+               A true true (b.take xs.length) * R1 (b.drop xs.length) +
+               A false true (b.take xs.length) * X01 (b.drop xs.length) +
+               A true false (b.take xs.length) * X10 (b.drop xs.length) := by
+    funext b
+    rw [ind_lab2_bne]
+    have e3 : (ind ((phases ((b.drop xs.length).take xs.length)).getD i false !=
+        (phases ((b.drop xs.length).drop xs.length)).getD j false) : α) = X01 (b.drop xs.length) := by
+      simp only [X01, U]; exact ind_bne _ _
+    have e4 : (ind ((phases ((b.drop xs.length).drop xs.length)).getD i false !=
+        (phases ((b.drop xs.length).take xs.length)).getD j false) : α) = X10 (b.drop xs.length) := by
+      simp only [X10, U]; rw [ind_bne]; ring
+    rw [e3, e4]
+  rw [hsplit, E_add, E_add, E_add, E_split_append, E_split_append, E_split_append, E_split_append]
+  -- the last meiosis
+  have hA : ∀ p q, E xs (A p q) =
+      (if p then phaseProb xs i else 1 - phaseProb xs i) * (if xor p q then pairProb xs i j else 1 - pairProb xs i j) :=
+    fun p q => joint_phase_law xs i j hij hj p q
+  -- the two earlier meioses
+  have hU : ∀ k, k < xs.length → E xs (U k) = phaseProb xs k := by
+    intro k hk
+    have := phase_law xs k hk true
+    simp only [if_true] at this
+    rw [← this]
+    apply E_congr; intro b _; simp only [U]; cases (phases b).getD k false <;> rfl
+  have hU' : ∀ k, k < xs.length → E xs (fun u => 1 - U k u) = 1 - phaseProb xs k := by
+    intro k hk
+    rw [E_sub, E_const, hU k hk]
+  have hR0 : E (xs ++ xs) R0 = pairProb xs i j := by
+    rw [E_take_append xs xs (fun u => ind ((phases u).getD i false != (phases u).getD j false))]
+    exact recomb_pair xs i j hij hj
+  have hR1 : E (xs ++ xs) R1 = pairProb xs i j := by
+    rw [E_drop_append xs xs (fun u => ind ((phases u).getD i false != (phases u).getD j false))]
+    exact recomb_pair xs i j hij hj
+  have hX01 : E (xs ++ xs) X01 =
+      phaseProb xs i * (1 - phaseProb xs j) + (1 - phaseProb xs i) * phaseProb xs j := by
+    simp only [X01]
+    rw [E_add, E_split_append xs xs (U i) (fun v => 1 - U j v), E_split_append xs xs (fun u => 1 - U i u) (U j),
+        hU i hi, hU j hj, hU' i hi, hU' j hj]
+  have hX10 : E (xs ++ xs) X10 =
+      (1 - phaseProb xs j) * phaseProb xs i + phaseProb xs j * (1 - phaseProb xs i) := by
+    simp only [X10]
+    rw [E_add, E_split_append xs xs (fun u => 1 - U j u) (U i), E_split_append xs xs (U j) (fun v => 1 - U i v),
+        hU i hi, hU j hj, hU' i hi, hU' j hj]
+  rw [hA, hA, hA, hA, hR0, hR1, hX01, hX10]
+  simp only [Bool.xor_self, Bool.false_eq_true, if_false, if_true, Bool.xor_true, Bool.not_false, Bool.xor_false,
+    Bool.not_true, Bool.false_xor, Bool.true_xor]
+  unfold pairProb2
+  ring
+
+/-- with one half at (or before) both markers — chromosome starts from a genetic map — the two-generation value
+    is `r (1 - r) + r/2`; in particular two markers that are unlinked in one meiosis (`r = 1/2`) stay unlinked -/
+theorem two_generation_half (xs : List α) (i j k0 k1 : Nat) (hj : j < xs.length) (hk0 : k0 ≤ i) (hk1 : k1 ≤ j)
+    (hij : i < j) (h0 : xs[k0] = 1 / 2) (h1 : xs[k1] = 1 / 2) :
+    pairProb2 xs i j = pairProb xs i j * (1 - pairProb xs i j) + pairProb xs i j / 2 := by
+  have hu : phaseProb xs i = 1 / 2 := by
+    have := segregation_half xs k0 i hk0 (by omega) h0 true
+    rw [phase_law xs i (by omega) true] at this
+    simpa using this
+  have hv : phaseProb xs j = 1 / 2 := by
+    have := segregation_half xs k1 j hk1 hj h1 true
+    rw [phase_law xs j hj true] at this
+    simpa using this
+  unfold pairProb2
+  rw [hu, hv]
+  ring
+
+example : pairProb2 [(1:ℚ)/2, 1/10, 1/5] 0 2 = 13/50 * (37/50) + 13/50 / 2 := by
+  norm_num [pairProb2, pairProb, phaseProb, oddProb, prodD, dfac]
+example : E ([(1:ℚ)/2, 1/4] ++ ([(1:ℚ)/2, 1/4] ++ [(1:ℚ)/2, 1/4])) (fun b =>
+      ind (lab2 (b.take 2) ((b.drop 2).take 2) ((b.drop 2).drop 2) 0 !=
+           lab2 (b.take 2) ((b.drop 2).take 2) ((b.drop 2).drop 2) 1)) = 5/16 := by
+  have := two_generation_recombination_law [(1:ℚ)/2, 1/4] 0 1 (by decide) (by decide)
+  simp only [List.length_cons, List.length_nil] at this
+  rw [this]; norm_num [pairProb2, pairProb, phaseProb, oddProb, prodD, dfac]
+example : lab2 [true, false] [false, true] [false, false] 0 = false ∧
+    lab2 [true, false] [false, true] [false, false] 1 = false := by decide
+
 end wiringlaw
 
 section wiringdraws
@@ -856,6 +1213,11 @@ end wiringdraws
 example : Mating.generate (α := Int) .twoWay [([10, 11], [20, 21]), ([30, 31], [40, 41])] [[0, 1]] [1] [2] 0
     [(1:Rat)/2, 1/4] [[[1/4, 1/2], [3/4, 1/8]], [[3/4, 3/4], [1/4, 1/8]]] =
     .ok ([([20, 21], [30, 31]), ([10, 21], [40, 31])], []) := by decide +kernel
+example : Mating.generate (α := Int) .twoWay [([10, 11], [20, 21]), ([30, 31], [40, 41])] [[0, 1]] [1] [1] 1
+    [(1:Rat)/2, 1/4] [[[1/4, 1/2]], [[3/4, 3/4]], [[3/4, 1/8]], [[1/4, 1/2]]] =
+    .ok ([([20, 31], [30, 31])], []) := by decide +kernel
+example : Recomb.selfGens (α := Int) [(1:Rat)/2, 1/4] 1 [([20, 21], [30, 31])] [[[3/4, 1/8]], [[1/4, 1/2]]] =
+    [([20, 31], [30, 31])] := by decide +kernel
 example : Mating.generate (α := Int) .twoWayDH [([10, 11], [20, 21]), ([30, 31], [40, 41])] [[0, 1]] [1] [2] 0
     [(1:Rat)/2, 1/4] [[[1/4, 1/2]], [[3/4, 3/4]], [[1/4, 1/2], [3/4, 1/8]]] =
     .ok ([([30, 31], [30, 31]), ([20, 31], [20, 31])], []) := by decide +kernel
